@@ -5,7 +5,7 @@ generate(outdir) writes shapes_NN.cpp translation units plus shapes.json (metada
 reference model needs: bounds, clause counts, file/line/text of every slot)."""
 import json, os, random, itertools, hashlib
 
-GEN_VERSION = 4
+GEN_VERSION = 5
 INF = -1
 
 LIMS = {
@@ -73,6 +73,8 @@ def valid(s):
                 return False
     if s['cls'] == 'N' and fn not in ('f', 'v'):
         return False
+    if s.get('vform') and s['mk'].startswith('ANY'):
+        return False   # in the _V spelling the ANY(...) macro is expanded before it is stringified: the text differs
     return True
 
 
@@ -110,12 +112,16 @@ def expr(s, tagno):
         func = 'h(%s,%s)' % (mk_expr(s['mk']), mk_expr(s['mk2']))
     else:
         func = '%s(%s)' % (fn_call_name(s['fn']), mk_expr(s['mk']))
+    if s.get('vform'):
+        # the variadic (C++11-style) macro spelling: clauses are passed as one macro argument
+        ch = chain(s)
+        return '%s_V(%s, %s%s)' % (macro, obj, func, (', ' + ch) if ch else ''), obj + '.' + func
     return '%s(%s, %s)%s' % (macro, obj, func, chain(s)), obj + '.' + func
 
 
 def base(**kw):
     s = dict(cls='M', fn='f', mk='set', mk2=None, nw=0, wlr=False, ns=0, slr=False, act='ret', lim='rt',
-             nq=0, lim_first=True, ls_front=False, cord='ws', apos='last', nslots=1, core=None)
+             nq=0, lim_first=True, ls_front=False, cord='ws', apos='last', nslots=1, core=None, vform=False)
     s.update(kw)
     return s
 
@@ -146,6 +152,12 @@ def core_shapes():
     c.append(base(core='c_rt', fn='c', nslots=2))
     c.append(base(core='v_rt_tint', fn='v', act='tint', nslots=1))
     c.append(base(core='f_rt_s3', ns=3, nslots=2))
+    # keep new core shapes at the end: ids of the earlier ones stay stable
+    c.append(base(core='f_rt_v', vform=True, nslots=2))
+    c.append(base(core='f_forbid_v_w1', lim='forbid', act='none', nw=1, vform=True, nslots=2))
+    c.append(base(core='f_allow_v_s1', lim='allow', ns=1, vform=True, nslots=2))
+    c.append(base(core='v_forbid_v', fn='v', lim='forbid', act='none', vform=True, nslots=1))
+    c.append(base(core='v_rt_s1', fn='v', act='none', ns=1, nslots=2))
     return c
 
 
@@ -157,7 +169,7 @@ ATTRS = {
     'act': ['none', 'ret', 'lrret', 'retref', 'tstd', 'tint'],
     'lim': list(LIMS),
     'nq': [0, 1, 2], 'lim_first': [False, True], 'ls_front': [False, True],
-    'cord': ['ws', 'sw', 'mix'], 'apos': ['first', 'last'],
+    'cord': ['ws', 'sw', 'mix'], 'apos': ['first', 'last'], 'vform': [False, True],
 }
 
 
@@ -299,7 +311,7 @@ def generate(outdir, core_only=False):
     meta['files'].append(fname)
     for s in shapes:
         meta['shapes'].append({k: s[k] for k in ('id', 'cls', 'fn', 'mk', 'mk2', 'nw', 'wlr', 'ns', 'slr', 'act', 'lim',
-                                                  'L', 'H', 'rt', 'nq', 'lim_first', 'ls_front', 'cord', 'apos', 'core', 'slots')})
+                                                  'L', 'H', 'rt', 'nq', 'lim_first', 'ls_front', 'cord', 'apos', 'core', 'vform', 'slots')})
     with open(os.path.join(outdir, 'shapes.json'), 'w') as f:
         json.dump(meta, f, indent=0, sort_keys=True)
     return meta
